@@ -11,7 +11,8 @@ package vuego
 
 //@ spec func directive(k string) bool { k == "v-if" || k == "v-keep" || k == "v-else-if" || k == "v-else"
 //@   || k == "v-for" || k == "v-pre" || k == "v-html" || k == "v-text" || k == "v-show" || k == "v-once"
-//@   || k == "v-once-id" || k == "data-v-html-content" || k == "data-v-text-content" }
+//@   || k == "v-once-id" || k == "data-v-html-content" || k == "data-v-text-content"
+//@   || k == "v-slot" || hasPrefix(k, "v-slot:") || hasPrefix(k, "#") }
 
 //@ func shouldIgnoreAttr(key) (r)
 //@   pure
